@@ -65,6 +65,17 @@ def _attr(I, o, name, fi):
     return _unwrap(v)
 
 
+
+def _not_read(ctx, rule, tag, where_, out, Ir, fnd):
+    """the reader did not return an object: a library exception it does not catch (KeyError for a column / HDU / keyword the writer never wrote) is a
+    definite failure of the round trip; anything else is left undecided"""
+    if Ir is not None and getattr(Ir, 'uncaught', None):
+        ctx.violation(rule, tag, where_, 'reading back the file the writer produced raises %s' % Ir.uncaught, 'read-raises')
+        return True
+    compare(ctx, rule, tag, where_, out if isinstance(out, Unk) else Unk('reader result %r' % (out,)), Poly(), findings=fnd)
+    return False
+
+
 def check_sed(ctx, rule_rt='AGREE-4', rule_rev='PERM-4'):
     """SED.write -> SED.read for both read orders, with the flux unit kept (mJy) and converted (mJy -> erg/cm^2/s, which multiplies by the frequency of the same cell)"""
     repo = ctx.repo
@@ -72,25 +83,27 @@ def check_sed(ctx, rule_rt='AGREE-4', rule_rev='PERM-4'):
     scls = repo.cls('sed.sed', 'SED')
     decided = True
     erg_cm2_s = unit_atom('erg') * unit_atom('cm').pow(-2) * unit_atom('s').pow(-1)
+    erg_s = unit_atom('erg') * unit_atom('s').pow(-1)
     for order in ('nu', 'wav'):
-        for conv in (False, True):
+        for conv in (False, True, 'lum'):
             obj = Obj(scls, {'name': 'NAME', 'distance': scalar(sym('dist') * unit_atom('Udist'), unit_atom('Udist')), '_apertures': symarr('ap', (A,), unit=unit_atom('Uap')),
                              '_wav': symarr('wav', (N,), unit=unit_atom('Uwav')), '_nu': symarr('nu', (N,), unit=unit_atom('Unu')),
-                             '_flux': symarr('flux', (A, N), unit=unit_atom('mJy')), '_error': symarr('err', (A, N), unit=unit_atom('mJy'))})
-            req = Arr((), erg_cm2_s, unit=erg_cm2_s) if conv else Arr((), unit_atom('mJy'), unit=unit_atom('mJy'))
+                             '_flux': symarr('flux', (A, N), unit=erg_s if conv == 'lum' else unit_atom('mJy')),
+                             '_error': symarr('err', (A, N), unit=erg_s if conv == 'lum' else unit_atom('Jy'))})      # flux / error in different units where possible: a unit string taken from the other column shows
+            req = Arr((), erg_cm2_s, unit=erg_cm2_s) if conv is True else Arr((), unit_atom('mJy'), unit=unit_atom('mJy'))
             Iw, Ir, out = _run(repo, ('sed.sed', 'SED'), 'SED.write', 'SED.read', obj, {'unit_flux': req, 'order': order})
-            tag = 'SED round trip (read order %s, flux %s)' % (order, 'converted mJy -> erg/cm^2/s' if conv else 'unit kept')
+            tag = 'SED round trip (read order %s, flux %s)' % (order, {False: 'unit kept', True: 'converted mJy -> erg/cm^2/s', 'lum': 'converted erg/s -> mJy'}[conv])
             where_ = loc(fr)
             fnd = (Iw.findings if Iw else []) + (Ir.findings if Ir else [])
             if not isinstance(out, Obj):
-                compare(ctx, rule_rt, tag, where_, out if isinstance(out, Unk) else Unk('reader result %r' % (out,)), Poly(), findings=fnd)
-                decided = False
+                if not _not_read(ctx, rule_rt, tag, where_, out, Ir, fnd):
+                    decided = False
                 continue
             srt = alg.array_fn('argsort', N, sym('nu', N))
             g = lambda p_: mk_fn('at', B(N, p_), P(srt))
             nus, wavs = g(sym('nu', N)), g(sym('wav', N))
             c = lt(last(nus), first(nus)) if order == 'nu' else lt(last(wavs), first(wavs))
-            scale = nus if conv else Poly.const(1)
+            scale = {False: Poly.const(1), True: nus, 'lum': (sym('dist') * unit_atom('Udist')).pow(-2) * nus.pow(-1)}[conv]
             vocab = {'wav', 'nu', 'flux', 'err', 'ap', 'dist'}
             fns = {'rev', 'argsort'}
             refs = [('wav', wavs, (N,), rule_rev), ('nu', nus, (N,), rule_rev), ('flux', g(sym('flux', A, N)) * scale, (A, N), rule_rev), ('error', g(sym('err', A, N)) * scale, (A, N), rule_rev)]
@@ -98,7 +111,7 @@ def check_sed(ctx, rule_rt='AGREE-4', rule_rev='PERM-4'):
                 got = _attr(Ir, out, name, fr)
                 okk = compare(ctx, rule, '%s: %s' % (tag, name), where_, got, reversed_if(c, stored), dims, vocab=vocab, fns=fns, findings=fnd,
                               detail_ok='the stored %s (written in increasing frequency), reversed together with the other spectral arrays exactly when the requested order asks for it%s'
-                              % (name, '; each cell multiplied by the frequency of the same cell' if conv and name in ('flux', 'error') else ''))
+                              % (name, {False: '', True: '; each cell multiplied by the frequency of the same cell', 'lum': '; each cell divided by distance^2 and by the frequency of the same cell'}[conv] if name in ('flux', 'error') else ''))
                 if not okk and not any(o.rule == rule and o.instance == '%s: %s' % (tag, name) and o.status == 'VIOLATION' for o in ctx.obs):
                     decided = False
             for name, ref, dims in (('apertures', sym('ap', A), (A,)), ('distance', sym('dist') * unit_atom('Udist'), ())):
@@ -126,8 +139,8 @@ def check_cube(ctx, rule_rt='AGREE-5', rule_rev='PERM-5'):
             where_ = loc(fr)
             fnd = (Iw.findings if Iw else []) + (Ir.findings if Ir else [])
             if not isinstance(out, Obj):
-                compare(ctx, rule_rt, tag, where_, out if isinstance(out, Unk) else Unk('reader result %r' % (out,)), Poly(), findings=fnd)
-                decided = False
+                if not _not_read(ctx, rule_rt, tag, where_, out, Ir, fnd):
+                    decided = False
                 continue
             wav = sym('cwav', N)
             nu = mk_fn('spectral', P(wav))
@@ -174,8 +187,8 @@ def check_conv(ctx, rule_rt='AGREE-3'):
         where_ = loc(fr)
         fnd = (Iw.findings if Iw else []) + (Ir.findings if Ir else [])
         if not isinstance(out, Obj):
-            compare(ctx, rule_rt, tag, where_, out if isinstance(out, Unk) else Unk('reader result %r' % (out,)), Poly(), findings=fnd)
-            decided = False
+            if not _not_read(ctx, rule_rt, tag, where_, out, Ir, fnd):
+                decided = False
             continue
         vocab = {'names', 'cap', 'flux', 'err', 'cw'}
         fd = (M, A if ap else None)
